@@ -198,7 +198,7 @@ def coord_case(draw, tier):
      "default polar origin = centroid of the mask (any parity / position), rho = 1 at the farthest masked sample, "
      "zero off the mask, dependence on the mask only through its support", examples=(500, 2000))
 def default_coordinates(case, ctx):
-    mask = case["mask"]
+    mask = gen.relayout(case["mask"], ["C", "F", "strided", "reversed", "transposed_view"][(case["mask"].shape[0] + case["j"]) % 5])
     idx = np.argwhere(mask != 0)
     r0, c0 = idx[:, 0].mean(), idx[:, 1].mean()
     d = np.hypot(idx[:, 0] - r0, idx[:, 1] - c0)
